@@ -7,10 +7,10 @@ EXTENDS ProtoZoo, TLC, Json
 
 CONSTANT Dev
 VARIABLES st, c
-PVals(t) == Values(t) \o <<ZeroOf(t)>> \o Sweep(t, Values(t)[1])
+PVals(i) == LET t == PZoo[i] IN Values(t) \o <<ZeroOf(t)>> \o Sweep(t, Values(t)[1]) \o PExtra(i)
 Init == st = "type" /\ c \in {[ti |-> i] : i \in 1..Len(PZoo)}
-Next == st = "type" /\ st' = "case" /\ \E j \in 1..Len(PVals(PZoo[c.ti])) :
-           c' = [ti |-> c.ti, v |-> PVals(PZoo[c.ti])[j], dev |-> PDevOf(c.ti, Dev)]
+Next == st = "type" /\ st' = "case" /\ \E j \in 1..Len(PVals(c.ti)) :
+           c' = [ti |-> c.ti, v |-> PVals(c.ti)[j], dev |-> PDevOf(c.ti, Dev)]
 Spec == Init /\ [][Next]_<<st, c>>
 
 \* M: the expected decoded form is consistent with the schema (one occurrence list per declared field;
